@@ -44,11 +44,70 @@ def _strip(body):
                                     and isinstance(s.value.value, str))]
 
 
+BUILTINS_USED = {"isinstance", "type", "all", "any", "frozenset", "set", "tuple", "list", "str", "bool",
+                 "NotImplemented", "TypeError", "ValueError", "object"}
+PRIMS = BUILTINS_USED | {"Converter", "Attribute", "Factory", "NOTHING", "functools", "types", "_make_operator",
+                         "_check_same_type", "_is_comparable_to", "__ne__", "_split_what"}
+FORBIDDEN_NODES = (ast.Try, ast.With, ast.While, ast.Delete, ast.Global, ast.Nonlocal, ast.Assert, ast.NamedExpr,
+                   ast.AsyncFunctionDef, ast.AsyncFor, ast.AsyncWith, ast.Await, ast.Yield, ast.YieldFrom,
+                   ast.Import, ast.ImportFrom, ast.ClassDef, ast.Match, ast.Starred)
+
+
+def _bound_names(node):
+    """every name bound anywhere inside node (parameters, assignment / loop / comprehension / with / except
+    targets, nested defs)"""
+    out = []
+    for n in ast.walk(node):
+        if isinstance(n, ast.Name) and isinstance(n.ctx, (ast.Store, ast.Del)):
+            out.append(n.id)
+        elif isinstance(n, ast.arg):
+            out.append(n.arg)
+        elif isinstance(n, (ast.FunctionDef, ast.ClassDef)) and n is not node:
+            out.append(n.name)
+        elif isinstance(n, ast.ExceptHandler) and n.name:
+            out.append(n.name)
+    return out
+
+
+def _module_bindings(tree):
+    out = []
+    for n in tree.body:
+        if isinstance(n, (ast.FunctionDef, ast.ClassDef, ast.AsyncFunctionDef)):
+            out.append(n.name)
+        elif isinstance(n, (ast.Import, ast.ImportFrom)):
+            out += [(a.asname or a.name).split(".")[0] for a in n.names]
+        else:
+            out += [x.id for x in ast.walk(n) if isinstance(x, ast.Name) and isinstance(x.ctx, ast.Store)]
+    return out
+
+
 def _fn(tree_or_fn, name):
-    for n in tree_or_fn.body:
-        if isinstance(n, ast.FunctionDef) and n.name == name:
-            return n
-    raise Untranslatable("function %s not found" % name)
+    """the ONE definition of `name` directly in this module / function / class body: undecorated, not
+    rebound afterwards; inside it no construct we give no meaning to and no shadowing of a primitive."""
+    found = [n for n in tree_or_fn.body if isinstance(n, ast.FunctionDef) and n.name == name]
+    if len(found) != 1:
+        raise Untranslatable("expected exactly one definition of %s, found %d" % (name, len(found)))
+    fn = found[0]
+    if isinstance(tree_or_fn, ast.Module):
+        binds = _module_bindings(tree_or_fn)
+        if binds.count(name) != 1:
+            raise Untranslatable("%s is bound %d times at module level" % (name, binds.count(name)))
+        shadow = BUILTINS_USED & set(binds)
+        if shadow:
+            raise Untranslatable("module rebinds builtin(s) %s" % sorted(shadow))
+    _check_fn(fn)
+    return fn
+
+
+def _check_fn(fn):
+    for n in ast.walk(fn):
+        if isinstance(n, ast.FunctionDef) and n.decorator_list:
+            raise Untranslatable("%s is decorated" % n.name)
+        if isinstance(n, FORBIDDEN_NODES):
+            raise Untranslatable("%s contains %s" % (fn.name, type(n).__name__))
+    shadow = PRIMS & set(_bound_names(fn))
+    if shadow:
+        raise Untranslatable("%s rebinds %s" % (fn.name, sorted(shadow)))
 
 
 def _inner_defs(fn, name):
@@ -65,6 +124,16 @@ def _params(fn, n=None):
     if n is not None and len(ps) != n:
         raise Untranslatable("%s takes %d parameters, expected %d" % (fn.name, len(ps), n))
     return ps
+
+
+def _is_message(v):
+    """a string literal, or an f-string whose holes are plain names (no calls, no attribute reads)"""
+    if isinstance(v, ast.Constant) and isinstance(v.value, str):
+        return True
+    if isinstance(v, ast.JoinedStr):
+        return all(isinstance(p, ast.Constant) or (isinstance(p, ast.FormattedValue) and isinstance(p.value, ast.Name)
+                                                    and p.format_spec is None) for p in v.values)
+    return False
 
 
 class Walker:
@@ -91,7 +160,11 @@ class Walker:
         if isinstance(s, ast.Pass):
             return self.stmts(rest, tail)
         if isinstance(s, ast.Assign) and len(s.targets) == 1 and isinstance(s.targets[0], ast.Name) \
-                and s.targets[0].id == "msg" and isinstance(s.value, (ast.Constant, ast.JoinedStr)):
+                and s.targets[0].id == "msg" and _is_message(s.value):
+            # a message text is only given no meaning when the very next statement raises with it
+            # (formatting it calls repr() of a value: assumed not to raise - see docs, ASSUMPTIONS)
+            if not (rest and isinstance(rest[0], ast.Raise)):
+                raise Untranslatable("`msg = ...` not followed by raise")
             return self.stmts(rest, tail)
         if isinstance(s, ast.If):
             return self.if_(s, rest, tail)
@@ -99,9 +172,15 @@ class Walker:
             return self.ret(s.value)
         if isinstance(s, ast.Raise):
             e = s.exc
-            name = e.func.id if isinstance(e, ast.Call) and isinstance(e.func, ast.Name) else (
-                e.id if isinstance(e, ast.Name) else None)
-            if not name:
+            if s.cause is not None or e is None:
+                raise Untranslatable("raise ... from / bare raise")
+            name = None
+            if isinstance(e, ast.Name):
+                name = e.id
+            elif isinstance(e, ast.Call) and isinstance(e.func, ast.Name) and not e.keywords \
+                    and all(isinstance(a, ast.Name) and a.id == "msg" or _is_message(a) for a in e.args):
+                name = e.func.id
+            if not name or name not in ("ValueError", "TypeError"):
                 raise Untranslatable("raise " + ast.dump(s)[:100])
             return self.raise_(name)
         return self.other(s, rest, tail)
@@ -211,7 +290,7 @@ def tr_make_operator(tree):
             continue
         if isinstance(s, ast.Assign) and len(s.targets) == 1 and isinstance(s.targets[0], ast.Attribute) \
                 and isinstance(s.targets[0].value, ast.Name) and s.targets[0].value.id == m.name \
-                and s.targets[0].attr in ("__name__", "__doc__", "__qualname__"):
+                and s.targets[0].attr in ("__name__", "__doc__", "__qualname__") and _label_ok(s.value, ps[0], tree):
             continue
         raise Untranslatable("_make_operator: statement outside the subset: " + ast.dump(s)[:100])
     w = CmpMethod(mps[0], mps[1], ps[1], ps[0])
@@ -221,6 +300,36 @@ def tr_make_operator(tree):
     _must_end_in_return(m)
     return ("Definition t_method (V : Type) (o : cop) (func : V -> V -> tri) (cmpf : nat * V -> nat * V -> bool)\n"
             "  (self other : nat * V) : tri * list (cop * V * V) :=\n  %s.\n" % body)
+
+
+OPS_INSTALLED = ("eq", "lt", "le", "gt", "ge")
+
+
+def _label_ok(v, name_param, tree):
+    """f"...{name}...{_operation_names[name]}..." where _operation_names is a module-level dict literal that
+    has every operator name cmp_using passes (so building the label cannot raise KeyError)"""
+    if isinstance(v, ast.Constant) and isinstance(v.value, str):
+        return True
+    if not isinstance(v, ast.JoinedStr):
+        return False
+    for p_ in v.values:
+        if isinstance(p_, ast.Constant):
+            continue
+        if not (isinstance(p_, ast.FormattedValue) and p_.format_spec is None):
+            return False
+        x = p_.value
+        if isinstance(x, ast.Name) and x.id == name_param:
+            continue
+        if isinstance(x, ast.Subscript) and isinstance(x.value, ast.Name) and isinstance(x.slice, ast.Name) \
+                and x.slice.id == name_param:
+            tbl = [n for n in tree.body if isinstance(n, ast.Assign) and len(n.targets) == 1
+                   and isinstance(n.targets[0], ast.Name) and n.targets[0].id == x.value.id]
+            if len(tbl) == 1 and isinstance(tbl[0].value, ast.Dict) and _module_bindings(tree).count(x.value.id) == 1 \
+                    and all(isinstance(k, ast.Constant) for k in tbl[0].value.keys) \
+                    and set(OPS_INSTALLED) <= {k.value for k in tbl[0].value.keys}:
+                continue
+        return False
+    return True
 
 
 def _must_end_in_return(fn):
@@ -282,8 +391,6 @@ def tr_check_same_type(tree):
     def cls(n):
         if isinstance(n, ast.Attribute) and n.attr == "__class__":
             return "(cls %s)" % val(n.value)
-        if isinstance(n, ast.Call) and isinstance(n.func, ast.Name) and n.func.id == "type" and len(n.args) == 1:
-            return "(cls %s)" % val(n.args[0])
         raise Untranslatable("_check_same_type class " + ast.dump(n)[:80])
 
     def leaf(n):
@@ -316,9 +423,8 @@ class FilterCond(Walker):
         if isinstance(n, ast.Compare) and len(n.ops) == 1 and isinstance(n.ops[0], (ast.Is, ast.IsNot)) \
                 and isinstance(n.comparators[0], ast.Name) and n.comparators[0].id in self.KINDS:
             l = n.left
-            exact = (isinstance(l, ast.Attribute) and l.attr == "__class__" and isinstance(l.value, ast.Name) and l.value.id == self.var) \
-                or (isinstance(l, ast.Call) and isinstance(l.func, ast.Name) and l.func.id == "type" and len(l.args) == 1
-                    and isinstance(l.args[0], ast.Name) and l.args[0].id == self.var)
+            exact = isinstance(l, ast.Attribute) and l.attr == "__class__" and isinstance(l.value, ast.Name) \
+                and l.value.id == self.var
             if exact:
                 t = "(ti_exact_class %s %s)" % (self.var + "_", self.KINDS[n.comparators[0].id])
                 return t if isinstance(n.ops[0], ast.Is) else "(negb %s)" % t
@@ -380,13 +486,12 @@ def tr_filter(tree, outer, coq):
     def item(n):
         if isinstance(n, ast.Attribute) and n.attr == "__class__" and isinstance(n.value, ast.Name) and n.value.id == value:
             return "(WType value)"
-        if isinstance(n, ast.Call) and isinstance(n.func, ast.Name) and n.func.id == "type" and len(n.args) == 1 \
-                and isinstance(n.args[0], ast.Name) and n.args[0].id == value:
-            return "(WType value)"
         if isinstance(n, ast.Attribute) and n.attr == "name" and isinstance(n.value, ast.Name) and n.value.id == attribute:
-            return "(WName (a_name attribute))"
+            return "(WName (a_name (ta attribute)))"
+        if isinstance(n, ast.Attribute) and n.attr == "alias" and isinstance(n.value, ast.Name) and n.value.id == attribute:
+            return "(WName (ta_alias attribute))"          # a DIFFERENT read: the __init__ parameter name
         if isinstance(n, ast.Name) and n.id == attribute:
-            return "(WAttr attribute)"
+            return "(WAttr (ta attribute))"
         raise Untranslatable("%s: membership subject %s" % (outer, ast.dump(n)[:80]))
 
     def leaf(n):
@@ -396,7 +501,7 @@ def tr_filter(tree, outer, coq):
             return t if isinstance(n.ops[0], ast.In) else "(negb %s)" % t
         raise Untranslatable("%s: condition %s" % (outer, ast.dump(n)[:100]))
     t = Walker().boolop(ib[0].value, leaf)
-    return ("Definition %s (what : list titem) (attribute : attribute) (value : nat) : bool :=\n"
+    return ("Definition %s (what : list titem) (attribute : tattr) (value : nat) : bool :=\n"
             "  let '(%s_, %s_, %s_) := t_split_what what in\n  %s.\n" % (coq, sets[0], sets[1], sets[2], t))
 
 
@@ -513,6 +618,130 @@ def _closure(fn, sig, walker):
     return "%s :=\n  match a with\n  | %s => %s\n  | _ => type_error n\n  end.\n" % (sig, pat, body)
 
 
+
+# --------------------------------------------------------------------------------------
+# the OUTER functions (optional, default_if_none, pipe): everything around the closures must be
+# accounted for: either modelled (closure selection, what is returned), or annotation plumbing that
+# provably cannot touch the closure variables, or argument validation (documented as not tied)
+
+
+def _pure_expr(n, protected):
+    """an expression that only READS (names, attributes, subscripts, comparisons, boolean operators) or
+    calls the annotation helpers; never a call that receives a protected object other than to inspect it"""
+    if isinstance(n, (ast.Name, ast.Constant)):
+        return True
+    if isinstance(n, ast.Attribute):
+        return _pure_expr(n.value, protected)
+    if isinstance(n, ast.Subscript):
+        return _pure_expr(n.value, protected) and _pure_expr(n.slice, protected)
+    if isinstance(n, ast.UnaryOp) and isinstance(n.op, (ast.Not, ast.USub)):
+        return _pure_expr(n.operand, protected)
+    if isinstance(n, ast.BoolOp):
+        return all(_pure_expr(v, protected) for v in n.values)
+    if isinstance(n, ast.Compare):
+        return all(isinstance(o, (ast.Is, ast.IsNot, ast.Eq, ast.NotEq)) for o in n.ops) \
+            and all(_pure_expr(v, protected) for v in [n.left] + n.comparators)
+    if isinstance(n, ast.Dict):
+        return all(k is not None and _pure_expr(k, protected) for k in n.keys) and all(_pure_expr(v, protected) for v in n.values)
+    if isinstance(n, ast.Call) and not n.keywords:
+        f = n.func
+        if isinstance(f, ast.Name) and f.id in ("_AnnotationExtractor", "TypeVar", "isinstance"):
+            return all(_pure_expr(a, protected) for a in n.args)
+        if isinstance(f, ast.Attribute) and f.attr in ("get_first_param_type", "get_return_type") and not n.args:
+            if isinstance(f.value, ast.Name) and f.value.id not in protected:
+                return True
+            if isinstance(f.value, ast.Call) and isinstance(f.value.func, ast.Name) and f.value.func.id == "_AnnotationExtractor":
+                return _pure_expr(f.value, protected)
+    return False
+
+
+def _plumbing_ok(s, closure, protected):
+    if isinstance(s, ast.Assign) and len(s.targets) == 1:
+        t = s.targets[0]
+        if isinstance(t, ast.Name) and t.id not in protected and t.id != closure:
+            return _pure_expr(s.value, protected)
+        if isinstance(t, ast.Subscript) and isinstance(t.value, ast.Attribute) and t.value.attr == "__annotations__" \
+                and isinstance(t.value.value, ast.Name) and t.value.value.id == closure:
+            return _pure_expr(t.slice, protected) and _pure_expr(s.value, protected)
+        return False
+    if isinstance(s, ast.Expr) and isinstance(s.value, ast.Call):
+        f = s.value.func
+        return isinstance(f, ast.Attribute) and f.attr == "update" and isinstance(f.value, ast.Attribute) \
+            and f.value.attr == "__annotations__" and isinstance(f.value.value, ast.Name) and f.value.value.id == closure \
+            and len(s.value.args) == 1 and not s.value.keywords and _pure_expr(s.value.args[0], protected)
+    if isinstance(s, ast.If):
+        return _pure_expr(s.test, protected) and all(_plumbing_ok(x, closure, protected) for x in list(s.body) + list(s.orelse))
+    return False
+
+
+def _is_validation(s, protected):
+    """`if <reads>: msg = "..."; raise TypeError/ValueError(msg)` - argument validation (NOT tied, see docs)"""
+    if not (isinstance(s, ast.If) and not s.orelse and _pure_expr(s.test, protected)):
+        return False
+    b = list(s.body)
+    if b and isinstance(b[0], ast.Assign) and len(b[0].targets) == 1 and isinstance(b[0].targets[0], ast.Name) \
+            and b[0].targets[0].id == "msg" and _is_message(b[0].value):
+        b = b[1:]
+    return len(b) == 1 and isinstance(b[0], ast.Raise) and b[0].cause is None and isinstance(b[0].exc, ast.Call) \
+        and isinstance(b[0].exc.func, ast.Name) and b[0].exc.func.id in ("TypeError", "ValueError")
+
+
+def _converter_return(v, closure):
+    """Converter(<closure>, takes_self=<bool>, takes_field=<bool>) -> (ts, tf)"""
+    if isinstance(v, ast.Call) and isinstance(v.func, ast.Name) and v.func.id == "Converter" and len(v.args) == 1 \
+            and isinstance(v.args[0], ast.Name) and v.args[0].id == closure:
+        kw = {k.arg: k.value for k in v.keywords}
+        if set(kw) <= {"takes_self", "takes_field"} and all(isinstance(x, ast.Constant) and isinstance(x.value, bool) for x in kw.values()):
+            return tuple(kw[k].value if k in kw else None for k in ("takes_self", "takes_field"))
+    return None
+
+
+def _outer(f, closure, protected, modelled, wrap_test=None, allow=()):
+    """Check every top-level statement of the outer function f.  `modelled`: statements translated
+    elsewhere; `wrap_test(test)`: recognises the condition under which a Converter is returned; `allow`:
+    extra predicate for statements with a known meaning.  Returns the flags of the Converter(...) return
+    (or None when the function only ever returns the bare closure)."""
+    flags, bare = [], 0
+    for s in _strip(f.body):
+        if any(s is m for m in modelled):
+            continue
+        if isinstance(s, ast.Return):
+            if isinstance(s.value, ast.Name) and s.value.id == closure:
+                bare += 1
+                continue
+            raise Untranslatable("%s returns %s" % (f.name, ast.dump(s.value)[:80] if s.value else "None"))
+        if isinstance(s, ast.If) and wrap_test and wrap_test(s.test) and not s.orelse and len(s.body) == 1 \
+                and isinstance(s.body[0], ast.Return):
+            fl = _converter_return(s.body[0].value, closure)
+            if fl is None:
+                raise Untranslatable("%s: conditional return is not Converter(%s, ...)" % (f.name, closure))
+            flags.append(fl)
+            continue
+        if _is_validation(s, protected) or any(a(s) for a in allow) or _plumbing_ok(s, closure, protected):
+            continue
+        raise Untranslatable("%s: statement outside the subset: %s" % (f.name, ast.dump(s)[:120]))
+    if bare != 1 or len(flags) > 1 or not isinstance(_strip(f.body)[-1], ast.Return):
+        raise Untranslatable("%s: return structure" % f.name)
+    # the closure name may only be bound by its def(s); protected names never (beyond `allow`ed statements)
+    names = _bound_names(f)
+    ndefs = len([n for n in ast.walk(f) if isinstance(n, ast.FunctionDef) and n.name == closure])
+    if names.count(closure) != ndefs:
+        raise Untranslatable("%s rebinds %s" % (f.name, closure))
+    other_defs = [n.name for n in ast.walk(f) if isinstance(n, (ast.FunctionDef, ast.Lambda)) and n is not f
+                  and not (isinstance(n, ast.FunctionDef) and n.name == closure)]
+    if other_defs:
+        raise Untranslatable("%s defines further functions" % f.name)
+    return flags[0] if flags else None
+
+
+def _flags_def(name, fl):
+    if fl is None:
+        return "Definition %s : option (bool * bool) := None.\n" % name
+    if None in fl:
+        raise Untranslatable("%s: Converter(...) without explicit takes_self/takes_field" % name)
+    return "Definition %s : option (bool * bool) := Some (%s, %s).\n" % (name, "true" if fl[0] else "false", "true" if fl[1] else "false")
+
+
 def tr_optional(tree):
     f = _fn(tree, "optional")
     conv = _params(f, 1)[0]
@@ -542,6 +771,19 @@ def tr_optional(tree):
                    len(_params([x for x in s.orelse if isinstance(x, ast.FunctionDef)][0])))
     if sel is None:
         raise Untranslatable("optional: closures are not selected by isinstance(converter, Converter)")
+    sel_if = [x for x in _strip(f.body) if isinstance(x, ast.If) and any(d in x.body for d in defs)]
+
+    def is_conv_test(t):
+        return isinstance(t, ast.Call) and isinstance(t.func, ast.Name) and t.func.id == "isinstance" and len(t.args) == 2 \
+            and isinstance(t.args[0], ast.Name) and t.args[0].id == conv and isinstance(t.args[1], ast.Name) \
+            and t.args[1].id == "Converter" and not t.keywords
+    if len(sel_if) != 1 or len(sel_if[0].body) != 1 or len(sel_if[0].orelse) != 1:
+        raise Untranslatable("optional: the selecting if contains more than the two closures")
+    names = _bound_names(f)
+    if names.count(conv) != 1:
+        raise Untranslatable("optional rebinds its parameter")
+    fl = _outer(f, "optional_converter", {conv}, sel_if, wrap_test=is_conv_test)
+    out.append(_flags_def("t_optional_wrap_flags", fl))
     out.append("Definition t_optional_arity_if_converter : nat := %d.\nDefinition t_optional_arity_if_plain : nat := %d.\n" % sel)
     return "\n".join(out)
 
@@ -567,6 +809,32 @@ def tr_default_if_none(tree):
                 fac, val = fb[0], vb[0]
     if fac is None:
         raise Untranslatable("default_if_none: closures are not selected by isinstance(default, Factory)")
+    factory = ps[1]
+    sel_if = [x for x in _strip(f.body) if isinstance(x, ast.If) and any(d in ast.walk(x) for d in defs)]
+    if len(sel_if) != 1:
+        raise Untranslatable("default_if_none: selecting if")
+    # inside the factory branch: optional validation, then the def; the other branch: the def only
+    fb = [x for x in sel_if[0].body if x is not fac]
+    if not all(_is_validation(x, {default, factory}) for x in fb) or list(sel_if[0].orelse) != [val]:
+        raise Untranslatable("default_if_none: statements beside the closures")
+
+    def rebinds_default(x):
+        # if factory is not None: default = Factory(factory)   (both spellings mean CFac)
+        return isinstance(x, ast.If) and not x.orelse and len(x.body) == 1 and isinstance(x.test, ast.Compare) \
+            and len(x.test.ops) == 1 and isinstance(x.test.ops[0], ast.IsNot) and isinstance(x.test.left, ast.Name) \
+            and x.test.left.id == factory and isinstance(x.test.comparators[0], ast.Constant) \
+            and x.test.comparators[0].value is None and isinstance(x.body[0], ast.Assign) \
+            and len(x.body[0].targets) == 1 and isinstance(x.body[0].targets[0], ast.Name) \
+            and x.body[0].targets[0].id == default and isinstance(x.body[0].value, ast.Call) \
+            and isinstance(x.body[0].value.func, ast.Name) and x.body[0].value.func.id == "Factory" \
+            and len(x.body[0].value.args) == 1 and isinstance(x.body[0].value.args[0], ast.Name) \
+            and x.body[0].value.args[0].id == factory and not x.body[0].value.keywords
+    nreb = len([x for x in _strip(f.body) if rebinds_default(x)])
+    names = _bound_names(f)
+    if names.count(default) != 1 + nreb or names.count(factory) != 1:
+        raise Untranslatable("default_if_none rebinds its parameters")
+    if _outer(f, "default_if_none_converter", {default, factory}, sel_if, allow=(rebinds_default,)) is not None:
+        raise Untranslatable("default_if_none returns a Converter")
     out = []
     wf = ConvClosure(_params(fac), default=default, value_default=False)
     out.append(_closure(fac, "Definition t_default_if_none_factory (g : nat) (a : list val) (n : nat) : out", wf))
@@ -648,6 +916,17 @@ def tr_pipe(tree):
                 sel = (len(_params(a_[0])), len(_params(b_[0])))
     if sel is None:
         raise Untranslatable("pipe: closures are not selected by `if return_instance:`")
+    sel_if = [x for x in _strip(f.body) if isinstance(x, ast.If) and any(d in x.body for d in defs)]
+    ri_assign = [x for x in _strip(f.body) if isinstance(x, ast.Assign) and len(x.targets) == 1
+                 and isinstance(x.targets[0], ast.Name) and x.targets[0].id == ri[0]]
+    if len(sel_if) != 1 or len(sel_if[0].body) != 1 or len(sel_if[0].orelse) != 1 or len(ri_assign) != 1:
+        raise Untranslatable("pipe: selecting if / return_instance assignment")
+    names = _bound_names(f)
+    if names.count(convs) != 1 or names.count(ri[0]) != 1:
+        raise Untranslatable("pipe rebinds converters / return_instance")
+    fl = _outer(f, "pipe_converter", {convs, ri[0]}, sel_if + ri_assign,
+                wrap_test=lambda t: isinstance(t, ast.Name) and t.id == ri[0])
+    out.append(_flags_def("t_pipe_wrap_flags", fl))
     out.append("Definition t_pipe_return_instance (cs : list conv) : bool := %s is_converter cs.\n"
                "Definition t_pipe_arity_if_instance : nat := %d.\nDefinition t_pipe_arity_if_plain : nat := %d.\n"
                % (ri[1], sel[0], sel[1]))
@@ -753,7 +1032,14 @@ class CmpCls(Walker):
             return "(BName %s)" % _q(v.id)
         if isinstance(v, ast.List) and not v.elts:
             return "BEmptyList"
-        return "BOpaque"
+        # values we give no meaning to: literals, and calls of a module-level helper without arguments
+        if isinstance(v, ast.List) and all(isinstance(e, ast.Constant) for e in v.elts):
+            return "BOpaque"
+        if isinstance(v, ast.Constant):
+            return "BOpaque"
+        if isinstance(v, ast.Call) and isinstance(v.func, ast.Name) and not v.args and not v.keywords:
+            return "BOpaque"
+        raise Untranslatable("cmp_using: class body value " + ast.dump(v)[:100])
 
     def ret(self, v):
         if isinstance(v, ast.Name) and v.id == self.type_:
@@ -851,6 +1137,8 @@ def tr_init_wrap(tree):
     if len(cands) != 1:
         raise Untranslatable("_attrs_to_init_script: expected exactly one `if ...: converter = ... else: converter = ...`")
     node = cands[0]
+    if _bound_names(f).count("converter") != 2:
+        raise Untranslatable("_attrs_to_init_script: `converter` is assigned elsewhere too")
     base = [None]
 
     def fld(n):
@@ -950,6 +1238,8 @@ Definition witem_eqb (a b : witem) : bool :=
   | _, _ => false
   end.
 Definition t_mem (x : witem) (s : list titem) : bool := existsb (fun y => witem_eqb x (ti y)) s.
+(** the probed Attribute with the one further field the filters could read: its alias (arbitrary) *)
+Record tattr := { ta : attribute; ta_alias : string }.
 
 (** the object the generated __init__ works with: the field's converter itself, or a NEW
     [Converter(a.converter)] around exactly that object *)
